@@ -48,7 +48,7 @@ def run(ctx):
                 ("prog-vec-nograd", dict(MaxNodes=4, GAlpha={3, -1}, Ops=ALL, UseVec=True, MaxHist=3, MaxBackward=1, Acts={"op", "bw"}, InitLeaves=VN), None),
                 ("prog-scalar5", dict(MaxNodes=5, GAlpha={-2}, Ops={"add", "mul", "sub"}, MaxHist=4, MaxBackward=1, Acts={"op", "bw"}, InitLeaves=SS), None),
                 ("prog-reuse", dict(MaxNodes=5, GAlpha={-2}, Ops={"add", "mul"}, MaxHist=5, MaxBackward=2, Acts={"op", "bw"}, InitLeaves=SS), 400000),
-                ("prog-fanout", dict(MaxNodes=6, GAlpha={-2, 3}, Ops={"unbind", "idx", "sum", "sq", "add", "mul", "stack"}, UseVec=True, MaxHist=5, MaxBackward=1,
+                ("prog-fanout", dict(MaxNodes=6, GAlpha={-2, 3}, Ops={"unbind", "idx", "sum", "sq", "add", "mul", "stack"}, UseVec=True, MaxHist=4, MaxBackward=1,
                                      Acts={"op", "bw"}, InitLeaves=[dict(vec=True, rg=True)]), 400000)]
         sims = [("sim", dict(MaxNodes=12, GAlpha={1, -2, 3}, Ops=ALL, UseVec=True, MaxHist=12, MaxBackward=1, Acts={"op", "bw"},
                              InitLeaves=[dict(vec=False, rg=True), dict(vec=True, rg=True), dict(vec=False, rg=False)]), 20000)]
